@@ -431,6 +431,7 @@ func OracleC04(run *common.Run, id string, res *Result) int {
 // Budget of one harness run.
 type Budget struct {
 	Main, Contention, Twin, CbFail, Mount, Remote, RootPresent, Extended, TwinReach, PlatImage int
+	Claim                                 int // tiny graphs in which up to 8 goroutines claim one descriptor at the same instant (TryCommit)
 	Sched, SchedReps                      int // graphs run under testing/synctest with the PRNG-controlled scheduler, extra schedules per graph
 	Small                                 bool // small-scope enumeration (graphs <= 3 nodes, sampled 4-node graphs) x roots x closed subsets
 	Reps                           int // extra schedules (latency seeds) per generated case
@@ -488,6 +489,9 @@ func Drive(run *common.Run, prop string, b Budget) {
 		}
 		if c.Sched {
 			run.Count("controlled-schedule(synctest)")
+		}
+		if c.Barrier {
+			run.Count("FindSuccessors barrier (simultaneous claims of a shared successor)")
 		}
 		if c.OneP {
 			run.Count("single-P schedule (GOMAXPROCS 1)")
@@ -655,6 +659,7 @@ func Drive(run *common.Run, prop string, b Budget) {
 	stream("mount", b.Mount)
 	stream("remote", b.Remote)
 	stream("platimage", b.PlatImage)
+	stream("claim", b.Claim)
 	stream("twin", b.Twin)
 	stream("twinreach", b.TwinReach)
 	if T != nil {
